@@ -110,7 +110,8 @@ WIDTH_PARAMS = ("bits",)
 
 def rule_width(repo, rule):
     ci = repo.cls(RT, "LinComb")
-    width_methods = {n for n, f in ci.methods.items() if any(p in WIDTH_PARAMS for p in f.params)}
+    # a *width* parameter is an optional int (default None); from_bits(bits) takes the list of bits, not a width
+    width_methods = {n for n, f in ci.methods.items() if any(p in WIDTH_PARAMS and f.param_default(p) is not None for p in f.params)}
     for name in sorted(width_methods):
         fi = ci.methods[name]
         wp = [p for p in fi.params if p in WIDTH_PARAMS][0]
@@ -148,6 +149,17 @@ def rule_width(repo, rule):
             else:
                 rule.violation(fi.loc(g.iter), fi.fq, "bits built: %s" % norm(g.iter), "number of bits allocated is not the "
                                "requested width `%s`" % wp, "%s/nbits" % fi.qual)
+        # the width is replaced by the default only when it is None (a requested width of 0 is a width)
+        for a in ast.walk(fi.node):
+            if isinstance(a, ast.Assign) and len(a.targets) == 1 and norm(a.targets[0]) == wp and not isinstance(a.value, (ast.ListComp,)):
+                gov = [p_ for p_ in parents(a) if isinstance(p_, ast.If)]
+                ok_none = any(norm(g.test) in ("%s is None" % wp, "%s == None" % wp) and a in g.body for g in gov)
+                ok_ifexp = isinstance(a.value, ast.IfExp) and norm(a.value.test) in ("%s is None" % wp, "%s is not None" % wp)
+                if ok_none or ok_ifexp:
+                    rule.ok(fi.loc(a), fi.fq, "default width only when `%s is None`: %s" % (wp, norm(a)))
+                else:
+                    rule.violation(fi.loc(a), fi.fq, norm(a), "the width argument is overridden by something other than the `is None` "
+                                   "default: a requested width (e.g. 0) is not the width enforced", "%s/width-default" % fi.qual)
         # run-time test uses the width
         for t in consumed:
             txt = norm(t.test)
